@@ -28,6 +28,7 @@ import (
 	"time"
 
 	"cosmossdk.io/math"
+	codectypes "github.com/cosmos/cosmos-sdk/codec/types"
 	"cosmossdk.io/store/prefix"
 	sdk "github.com/cosmos/cosmos-sdk/types"
 	"github.com/ethereum/go-ethereum/crypto"
@@ -97,7 +98,8 @@ type row struct {
 	Acct int  `json:"acct"`
 	MevH bool `json:"mevH"` // MEV trait of the home chain account
 	MevT bool `json:"mevT"` // MEV trait of the target chain account
-	Fee  int  `json:"fee"`
+	Fee  int  `json:"fee"`  // multiplicator x100 on record for the target chain (0: none)
+	FeeH int  `json:"feeH"` // multiplicator x100 on record for the home chain (0: none)
 	Perf bool `json:"perf"`
 }
 
@@ -120,6 +122,7 @@ type args struct {
 	Stage string `json:"stage"`
 	Proc  string `json:"proc"`
 	W     int    `json:"w"`
+	F     int    `json:"f"`
 }
 
 type run struct {
@@ -168,13 +171,32 @@ func must(err error) {
 
 func dec100(n int) math.LegacyDec { return math.LegacyNewDecWithPrec(int64(n), 2) }
 
-func (r *run) setFee(v int, fee int) {
+// setFee writes the fee record of validator v: one entry per chain with a multiplicator (0: no entry for that chain).
+func (r *run) setFee(v int, fee, feeH int) {
 	val := r.w.vals[v].Val
-	fees := []treasurytypes.RelayerFeeSetting_FeeSetting{{Multiplicator: math.LegacyMustNewDecFromStr("1.10"), ChainReferenceId: home}}
+	fees := []treasurytypes.RelayerFeeSetting_FeeSetting{}
+	if feeH != 0 {
+		fees = append(fees, treasurytypes.RelayerFeeSetting_FeeSetting{Multiplicator: dec100(feeH), ChainReferenceId: home})
+	}
 	if fee != 0 {
 		fees = append(fees, treasurytypes.RelayerFeeSetting_FeeSetting{Multiplicator: dec100(fee), ChainReferenceId: target})
 	}
 	must(r.w.e.Treasury.SetRelayerFee(r.ctx, val, &treasurytypes.RelayerFeeSetting{ValAddress: val.String(), Fees: fees}))
+}
+
+// feesOf reads the multiplicators (x100) validator v has on record for the target and the home chain.
+func (r *run) feesOf(v int) (fee, feeH int) {
+	ft, err := r.w.e.Treasury.GetRelayerFeesByChainReferenceID(r.ctx, target)
+	must(err)
+	fh, err := r.w.e.Treasury.GetRelayerFeesByChainReferenceID(r.ctx, home)
+	must(err)
+	if d, ok := ft[r.w.vals[v].Val.String()]; ok {
+		fee = dec100Int(d)
+	}
+	if d, ok := fh[r.w.vals[v].Val.String()]; ok {
+		feeH = dec100Int(d)
+	}
+	return
 }
 
 func (r *run) dropMetrics(v int) {
@@ -344,9 +366,12 @@ func (r *run) msgObs(m consensustypes.QueuedSignedMessageI) map[string]any {
 	em := cm.(*evmtypes.Message)
 	kind, sender := "other", 0
 	fees := []int{0, 0, 0}
+	mev, retries := false, 0
 	switch a := em.Action.(type) {
 	case *evmtypes.Message_SubmitLogicCall:
 		kind = "slc"
+		mev = a.SubmitLogicCall.ExecutionRequirements.EnforceMEVRelay
+		retries = int(a.SubmitLogicCall.Retries)
 		fmt.Sscanf(string(a.SubmitLogicCall.SenderAddress), "sender-%d", &sender)
 		if f := a.SubmitLogicCall.Fees; f != nil {
 			fees = []int{small(f.RelayerFee), small(f.CommunityFee), small(f.SecurityFee)}
@@ -366,9 +391,15 @@ func (r *run) msgObs(m consensustypes.QueuedSignedMessageI) map[string]any {
 	for _, g := range m.GetGasEstimates() {
 		subs = append(subs, map[string]any{"v": r.valIdxBytes(g.ValAddress), "g": small(g.Value)})
 	}
+	evs := []int{}
+	for _, e := range m.GetEvidence() {
+		evs = append(evs, r.valIdxBytes(e.ValAddress))
+	}
+	sort.Ints(evs)
 	return map[string]any{"id": small(m.GetId()), "kind": kind, "sender": sender, "assignee": as, "remote": remote,
 		"needsEst": m.GetRequireGasEstimation(), "est": small(m.GetGasEstimate()),
-		"pad": m.GetPublicAccessData() != nil, "err": m.GetErrorData() != nil, "fees": fees, "subs": subs}
+		"pad": m.GetPublicAccessData() != nil, "err": m.GetErrorData() != nil, "fees": fees, "subs": subs,
+		"mev": mev, "retries": retries, "ev": evs}
 }
 
 func (r *run) emit(act string, a any, res string, errS string, extra map[string]any) {
@@ -428,7 +459,7 @@ func meta(a sdk.AccAddress) valsettypes.MsgMetadata {
 func (r *run) setup(a args, raw json.RawMessage) {
 	for v, rw := range a.Rows {
 		must(r.w.e.Valset.SetExternalChainInfoState(r.ctx, r.w.vals[v].Val, r.infos(v, rw.Home, rw.Acct, rw.MevH, rw.MevT)))
-		r.setFee(v, rw.Fee)
+		r.setFee(v, rw.Fee, rw.FeeH)
 	}
 	_, err := r.w.e.Valset.TriggerSnapshotBuild(r.ctx)
 	must(err)
@@ -489,10 +520,30 @@ func (r *run) noteCreated(before map[uint64]bool) {
 	r.created = append(r.created, fresh...)
 }
 
-func (r *run) put(kind string, s, a int, ne bool, raw any) {
+func chainOf(c string) (chain, compass, queue string) {
+	if c == "h" {
+		return home, "compass-eth-a-1", queueNameHome
+	}
+	return target, "compass-eth-b-1", queueName
+}
+
+// queueOf names the queue that holds message rid (the target chain's queue if none does).
+func (r *run) queueOf(rid uint64) string {
+	msgs, err := r.w.e.Consensus.GetMessagesFromQueue(r.ctx, queueNameHome, 0)
+	must(err)
+	for _, m := range msgs {
+		if m.GetId() == rid {
+			return queueNameHome
+		}
+	}
+	return queueName
+}
+
+func (r *run) put(c, kind string, s, a int, ne bool, raw any) {
 	before := r.queueIDs()
 	as := r.w.vals[a-1]
-	msg := &evmtypes.Message{ChainReferenceID: target, TurnstoneID: "compass-eth-b-1", Assignee: as.Val.String(),
+	chain, compass, qn := chainOf(c)
+	msg := &evmtypes.Message{ChainReferenceID: chain, TurnstoneID: compass, Assignee: as.Val.String(),
 		AssigneeRemoteAddress: as.EthAddr.Hex(), AssignedAtBlockHeight: math.NewInt(r.ctx.BlockHeight())}
 	switch kind {
 	case "slc":
@@ -509,7 +560,7 @@ func (r *run) put(kind string, s, a int, ne bool, raw any) {
 		msg.Action = &evmtypes.Message_UploadSmartContract{UploadSmartContract: &evmtypes.UploadSmartContract{Id: uint64(50 + len(r.created)), Bytecode: []byte{1}, Abi: "[]"}}
 	}
 	err, _ := env.RunMsg(r.ctx, func(ctx sdk.Context) error {
-		_, err := r.w.e.Consensus.PutMessageInQueue(ctx, queueName, msg, &consensus.PutOptions{RequireGasEstimation: ne, RequireSignatures: true})
+		_, err := r.w.e.Consensus.PutMessageInQueue(ctx, qn, msg, &consensus.PutOptions{RequireGasEstimation: ne, RequireSignatures: true})
 		return err
 	})
 	must(err)
@@ -520,9 +571,10 @@ func (r *run) put(kind string, s, a int, ne bool, raw any) {
 func (r *run) estimate(v, id, g int) {
 	rid := r.realID(id)
 	val := r.w.vals[v-1]
+	qn := r.queueOf(rid)
 	err, _ := env.RunMsg(r.ctx, func(ctx sdk.Context) error {
 		_, err := r.w.srv.AddMessageEstimates(ctx, &consensustypes.MsgAddMessageGasEstimates{Metadata: meta(val.Acc),
-			Estimates: []*consensustypes.MsgAddMessageGasEstimates_GasEstimate{{MsgId: rid, QueueTypeName: queueName, Value: uint64(g), EstimatedByAddress: val.EthAddr.Hex()}}})
+			Estimates: []*consensustypes.MsgAddMessageGasEstimates_GasEstimate{{MsgId: rid, QueueTypeName: qn, Value: uint64(g), EstimatedByAddress: val.EthAddr.Hex()}}})
 		return err
 	})
 	res := "ok"
@@ -530,6 +582,55 @@ func (r *run) estimate(v, id, g int) {
 		res = "fail"
 	}
 	r.emit("Estimate", map[string]any{"v": v, "id": id, "g": g}, res, errStr(err), map[string]any{"rid": small(rid)})
+}
+
+// attestErr: validator v attests an execution-error proof for message id (consensus message server AddEvidence).
+func (r *run) attestErr(v, id int) {
+	rid := r.realID(id)
+	val := r.w.vals[v-1]
+	qn := r.queueOf(rid)
+	proof, err := codectypes.NewAnyWithValue(&evmtypes.SmartContractExecutionErrorProof{ErrorMessage: "execution reverted"})
+	must(err)
+	err, _ = env.RunMsg(r.ctx, func(ctx sdk.Context) error {
+		_, err := r.w.srv.AddEvidence(ctx, &consensustypes.MsgAddEvidence{Proof: proof, MessageID: rid, QueueTypeName: qn, Metadata: meta(val.Acc)})
+		return err
+	})
+	res := "ok"
+	if err != nil {
+		res = "fail"
+	}
+	r.emit("AttestErr", map[string]any{"v": v, "id": id}, res, errStr(err), map[string]any{"rid": small(rid)})
+}
+
+// endBlockAtt runs the attestation part of the consensus end blocker at block time base+t.
+func (r *run) endBlockAtt(t int, raw any) {
+	before := r.queueIDs()
+	r.ctx = r.ctx.WithBlockTime(r.base.Add(time.Duration(t) * time.Second))
+	res, errS := "eba", ""
+	func() {
+		defer func() {
+			if rec := recover(); rec != nil {
+				res = "panic"
+				errS = fmt.Sprintf("panic: %v @ %s", rec, palomaFrames())
+			}
+		}()
+		if err := r.w.e.Consensus.CheckAndProcessAttestedMessages(r.ctx); err != nil {
+			errS = errStr(err)
+		}
+	}()
+	r.noteCreated(before)
+	r.emit("EndBlockAtt", raw, res, errS, nil)
+}
+
+func (r *run) setFeeStep(a args, raw json.RawMessage) {
+	fee, feeH := r.feesOf(a.V - 1)
+	if a.C == "h" {
+		feeH = a.F
+	} else {
+		fee = a.F
+	}
+	r.setFee(a.V-1, fee, feeH)
+	r.emit("SetFee", raw, "setfee", "", nil)
 }
 
 func (r *run) endBlock(raw any) {
@@ -643,7 +744,17 @@ func (r *run) step(s drv.Step) {
 	case "Assign":
 		r.assign(a, s.Args)
 	case "Put":
-		r.put(a.Kind, a.S, a.A, a.Ne, s.Args)
+		r.put(a.C, a.Kind, a.S, a.A, a.Ne, s.Args)
+	case "SetFee":
+		r.setFeeStep(a, s.Args)
+	case "AttestErr":
+		r.attestErr(a.V, a.ID)
+	case "AttestErrN":
+		for v := 1; v <= a.N; v++ {
+			r.attestErr(v, a.ID)
+		}
+	case "EndBlockAtt":
+		r.endBlockAtt(a.T, s.Args)
 	case "Estimate":
 		r.estimate(a.V, a.ID, a.G)
 	case "EstimateN":
@@ -657,13 +768,17 @@ func (r *run) step(s drv.Step) {
 	case "Query":
 		r.query(s.Args)
 	case "PutX":
-		r.put(a.Kind, a.S, a.A, a.Stage != "noneed", map[string]any{"kind": a.Kind, "s": a.S, "a": a.A, "ne": a.Stage != "noneed"})
+		c := a.C
+		if c == "" {
+			c = "t"
+		}
+		r.put(c, a.Kind, a.S, a.A, a.Stage != "noneed", map[string]any{"c": c, "kind": a.Kind, "s": a.S, "a": a.A, "ne": a.Stage != "noneed"})
 		id := len(r.created)
 		n := 0
 		switch a.Stage {
 		case "sub":
 			n = a.N - 1
-		case "elected":
+		case "ready", "elected":
 			n = a.N
 		}
 		for v := 1; v <= n; v++ {
